@@ -7,6 +7,9 @@ An abstract case is JSON:
 entry (file with a table):  {"name", "type": "file", "role": "line", "header": [raw header tokens],
                              "names": [field names genfromtxt gives], "rows": [[text tokens]]}
 entry (anything else):      {"name", "type": "file"|"dir", "role": "distractor", "raw": text}
+optional "primers": [{"entries": [...], "pi": [...]} | {"same": true, "shuffle": seed, "pi": [...]}, ...]  directories of
+the same layout ("same": the real directory itself, listing shuffled by the seed) that are imported BEFORE the real one,
+in this order, through the same option object (a history of calls; only the last result is judged).
 A token is the text written into the file; its value is float(token), NaN when that fails
 (empty fields, the LDR "dwell time=..." row).
 """
@@ -228,10 +231,15 @@ def distractors(rng, vendor, auto, taken):
 
 
 # ----------------------------------------------------------------------------- tables
-def make_tables(rng, vendor, n):
-    """n tables with a common header; rows of unequal length; vendor helper columns"""
-    k = rng.choice([1, 1, 2, 2, 3, 4])
-    elements = rng.sample(ELEMENTS, k)
+def make_tables(rng, vendor, n, elements=None, nancols=None, nanhelper=None):
+    """n tables with a common header; rows of unequal length; vendor helper columns.
+    Primer directories fix `elements`, the set `nancols` of element positions that are empty in every line and
+    optionally one helper column `nanhelper` that is empty in every line."""
+    if elements is None:
+        k = rng.choice([1, 1, 2, 2, 3, 4])
+        elements = rng.sample(ELEMENTS, k)
+    else:
+        k = len(elements)
     feats = [f"k{k}" if k <= 2 else "k>=3"]
     helpers = {"nu": ["Cycle_time_(ms)", "x_[um]", "y_[um]"], "ldr": ["Time"], "tofwerk": ["t_elapsed_Buf"], "generic": []}[vendor]
     hk = rng.random()
@@ -258,7 +266,10 @@ def make_tables(rng, vendor, n):
         feats.append("nan-position-in-one-line")
     if nanpos is not None:
         feats.append("all-nan-position")
-    if nancol is not None:
+    nanset = {nancol} if nancol is not None else set()
+    if nancols is not None:
+        nanset = set(nancols)
+    if nanset:
         feats.append("all-nan-element")
     tables = []
     for li in range(n):
@@ -275,8 +286,10 @@ def make_tables(rng, vendor, n):
         if "t_elapsed_Buf" in helpers:
             hcols["t_elapsed_Buf"] = helper_column(rng, L, 0.1 + li * L * step, step)
         ecols = [[data_token(rng) for _ in range(L)] for _ in range(k)]
-        if nancol is not None:
-            ecols[nancol] = [rng.choice(["", "nan"]) for _ in range(L)]
+        for c in sorted(nanset):
+            ecols[c] = [rng.choice(["", "nan"]) for _ in range(L)]
+        if nanhelper in hcols:
+            hcols[nanhelper] = [rng.choice(["", "nan"]) for _ in range(L)]
         if vendor == "tofwerk":  # helper column last, element names quoted
             for e, c in zip(elements, ecols):
                 header.append(f"'{e}'"), names.append(e), cols.append(c)
@@ -302,6 +315,83 @@ def make_tables(rng, vendor, n):
     return tables, feats
 
 
+def make_primer(rng, case, same=False):
+    """a directory of the layout of `case` to be imported before it: regularly with element columns that are empty in
+    every line, with a different (overlapping) element set / order, other helper columns, another line count"""
+    vendor = case["vendor"]
+    real = [e for e in case["entries"] if e["role"] == "line"]
+    if same:  # the real directory itself, listed (shuffle seed) and completed (pi) in another order
+        pi = list(range(len(real)))
+        rng.shuffle(pi)
+        return {"same": True, "shuffle": rng.randrange(1 << 30), "pi": pi}, ["primer-same-dir"]
+    helpers = {"Cycle_time_(ms)", "x_[um]", "y_[um]", "Time", "t_elapsed_Buf", "f0"}
+    relem = [nm for nm in (real[0]["names"] if real else []) if nm not in helpers]
+    feats = []
+    k = rng.random()
+    if k < 0.4 or not relem:
+        elements = list(relem) or rng.sample(ELEMENTS, 2)
+    elif k < 0.8:  # overlapping set: some dropped, some added, order changed
+        elements = [e for e in relem if rng.random() < 0.7] or [rng.choice(relem)]
+        extra = [e for e in ELEMENTS if e not in relem]
+        elements += rng.sample(extra, rng.choice([0, 1, 2]))
+        rng.shuffle(elements)
+    else:
+        elements = rng.sample(ELEMENTS, rng.choice([1, 2, 3, 4]))
+    if sorted(elements) != sorted(relem):
+        feats.append("primer-other-elements")
+    nancols = []
+    if rng.random() < 0.6:
+        nancols = rng.sample(range(len(elements)), rng.randint(1, len(elements)))
+        feats.append("primer-all-nan-element")
+        if any(elements[c] in relem for c in nancols):
+            feats.append("primer-all-nan-element-of-real")
+    nanhelper = None
+    if rng.random() < 0.15:
+        nanhelper = rng.choice({"nu": ["Cycle_time_(ms)", "x_[um]", "y_[um]"], "ldr": ["Time"], "tofwerk": ["t_elapsed_Buf"],
+                                "generic": [None]}[vendor])
+        if nanhelper:
+            feats.append("primer-all-nan-helper")
+    n = rng.choice([1, 1, 2, 3, 4])
+    if n != len(real):
+        feats.append("primer-other-line-count")
+    names, _, _ = line_names(rng, vendor, n, case["tz"])
+    tables, _ = make_tables(rng, vendor, n, elements=elements, nancols=nancols, nanhelper=nanhelper)
+    entries = [{"name": nm, "type": "file", "role": "line", "eol": "\n", **t} for nm, t in zip(names, tables)]
+    if rng.random() < 0.3:
+        ds, _ = distractors(rng, vendor, False, set(names))
+        entries += ds
+    rng.shuffle(entries)
+    pi = list(range(n))
+    rng.shuffle(pi)
+    return {"entries": entries, "pi": pi}, feats
+
+
+def add_history(rng, case):
+    """imports that precede the real one on the same option object: one primer, the real directory itself, or two"""
+    k = rng.random()
+    if k < 0.15:
+        plan = [True]
+    elif k < 0.7:
+        plan = [False]
+    elif k < 0.85:
+        plan = [False, False]
+    else:
+        plan = [False, True] if rng.random() < 0.5 else [True, False]
+    primers, feats = [], []
+    for same in plan:
+        p, f = make_primer(rng, case, same)
+        primers.append(p)
+        feats += f
+    if len(primers) == 2:
+        feats.append("two-primers")
+    case["primers"] = primers
+    case["gen_features"] = sorted(set(case["gen_features"] + feats))
+    return case
+
+
+HISTORY_RATE = 0.4  # of the cases with an explicit option object
+
+
 def generate(rng, tier):
     vendor = rng.choice(VENDORS + ["tofwerk"])
     n = rng.choice([1, 2, 2, 3, 4, 4, 5, 6, 8])
@@ -317,5 +407,9 @@ def generate(rng, tier):
     rng.shuffle(entries)  # listing order
     pi = list(range(n))
     rng.shuffle(pi)
-    return {"kind": "load", "vendor": vendor, "auto": auto, "tz": tz, "pi": pi, "entries": entries,
+    case = {"kind": "load", "vendor": vendor, "auto": auto, "tz": tz, "pi": pi, "entries": entries,
             "gen_features": sorted(set(f1 + f2 + f3))}
+    # drawn after everything else: the single-call case is the one the generator gave before histories existed
+    if not auto and rng.random() < HISTORY_RATE:
+        add_history(rng, case)
+    return case
